@@ -88,7 +88,11 @@ impl Eq for Val {}
 impl Ser for Val {
     fn ser(&self, o: &mut Buf) {
         o.push(self.tag);
-        if self.tag >= T_SYM {
+        if self.tag == T_STR {
+            // fixed width (zero padded), so that later positions stay constants
+            o.push(self.b.len as u8);
+            o.extend_fixed(&self.b, crate::SCAP)
+        } else if self.tag >= T_SYM {
             o.push(self.b.len as u8);
             o.extend_buf(&self.b)
         } else if self.tag != T_VOID {
@@ -99,7 +103,20 @@ impl Ser for Val {
 impl De for Val {
     fn de(r: &mut Rd) -> Option<Self> {
         let tag = r.byte()?;
-        if tag >= T_SYM {
+        if tag == T_STR {
+            let n = r.byte()? as usize;
+            if n > crate::SCAP {
+                return None;
+            }
+            let mut b = Buf::new();
+            let mut i = 0;
+            while i < crate::SCAP {
+                b.d[i] = r.byte()?;
+                i += 1;
+            }
+            b.len = n;
+            Some(Val::bufv(tag, b))
+        } else if tag >= T_SYM {
             let n = r.byte()? as usize;
             let mut b = Buf::new();
             let mut i = 0;
